@@ -6,6 +6,17 @@ import DimodProofs.LpNum
 import DimodProofs.LpDec
 import DimodProofs.LpClosed
 import DimodProofs.LpReader
+import DimodProofs.LpFamily0
+import DimodProofs.LpFamily1
+import DimodProofs.LpFamily2
+import DimodProofs.LpFamily3
+import DimodProofs.LpFamily4
+import DimodProofs.LpFamily5
+import DimodProofs.LpFamily6
+import DimodProofs.LpFamily7
+import DimodProofs.LpMalformed0
+import DimodProofs.LpMalformed1
+import DimodProofs.LpMalformed2
 
 /-! # C12 — LP text round trip preserves the constrained model or is refused
 
@@ -249,7 +260,14 @@ example : validLabel (.str "To") = true ∧ validLabel (.str "that") = true ∧ 
     objective sections, a missing right-hand side) is refused by the reader model; the harness checks on every run
     that `dimod.lp.loads` raises on the same list. -/
 theorem cpp_reader_refuses_malformed : ∀ t ∈ LpCpp.malformedTexts, LpCpp.loads t = .error .refused := by
-  decide +kernel
+  -- evaluated by the kernel in three parallel modules (`DimodProofs/LpMalformed{0,1,2}.lean`)
+  have hsplit : LpCpp.malformedTexts = LpCpp.malformedPart 0 ++ LpCpp.malformedPart 1 ++ LpCpp.malformedPart 2 := by decide +kernel
+  intro t ht
+  rw [hsplit, List.mem_append, List.mem_append] at ht
+  rcases ht with (h | h) | h
+  · exact LpCpp.malformed_part_0 t h
+  · exact LpCpp.malformed_part_1 t h
+  · exact LpCpp.malformed_part_2 t h
 
 /-- `model_to_cqm` refuses semi-continuous and semi-integer variables whatever their bounds -/
 theorem cpp_reader_refuses_semi (v : LpCpp.CVar) (h : v.type = .semicont ∨ v.type = .semiint) :
@@ -266,19 +284,43 @@ theorem cpp_reader_refuses_semi (v : LpCpp.CVar) (h : v.type = .semicont ∨ v.t
     of the harness).  Two models per theorem for elaboration time. -/
 theorem cpp_reader_roundtrip_family_a_partial :
     ∀ m ∈ LpCpp.familyPick 0, LpCpp.numsDouble m = true ∧ (Lp.dumps m).toOption.isSome = true ∧ LpCpp.roundTripOK m = true := by
-  decide +kernel
+  -- the two models are evaluated by the kernel in their own modules (`DimodProofs/LpFamily0.lean`, `LpFamily1.lean`)
+  have hsplit : LpCpp.familyPick 0 = LpCpp.familyOne 0 ++ LpCpp.familyOne 1 := by decide +kernel
+  intro m hm
+  rw [hsplit, List.mem_append] at hm
+  rcases hm with h | h
+  · exact LpCpp.famOK_spec m (LpCpp.family_member_0 m h)
+  · exact LpCpp.famOK_spec m (LpCpp.family_member_1 m h)
 
 theorem cpp_reader_roundtrip_family_b_partial :
     ∀ m ∈ LpCpp.familyPick 1, LpCpp.numsDouble m = true ∧ (Lp.dumps m).toOption.isSome = true ∧ LpCpp.roundTripOK m = true := by
-  decide +kernel
+  -- the two models are evaluated by the kernel in their own modules (`DimodProofs/LpFamily2.lean`, `LpFamily3.lean`)
+  have hsplit : LpCpp.familyPick 1 = LpCpp.familyOne 4 ++ LpCpp.familyOne 5 := by decide +kernel
+  intro m hm
+  rw [hsplit, List.mem_append] at hm
+  rcases hm with h | h
+  · exact LpCpp.famOK_spec m (LpCpp.family_member_4 m h)
+  · exact LpCpp.famOK_spec m (LpCpp.family_member_5 m h)
 
 theorem cpp_reader_roundtrip_family_c_partial :
     ∀ m ∈ LpCpp.familyPick 2, LpCpp.numsDouble m = true ∧ (Lp.dumps m).toOption.isSome = true ∧ LpCpp.roundTripOK m = true := by
-  decide +kernel
+  -- the two models are evaluated by the kernel in their own modules (`DimodProofs/LpFamily4.lean`, `LpFamily5.lean`)
+  have hsplit : LpCpp.familyPick 2 = LpCpp.familyOne 14 ++ LpCpp.familyOne 15 := by decide +kernel
+  intro m hm
+  rw [hsplit, List.mem_append] at hm
+  rcases hm with h | h
+  · exact LpCpp.famOK_spec m (LpCpp.family_member_14 m h)
+  · exact LpCpp.famOK_spec m (LpCpp.family_member_15 m h)
 
 theorem cpp_reader_roundtrip_family_d_partial :
     ∀ m ∈ LpCpp.familyPick 3, LpCpp.numsDouble m = true ∧ (Lp.dumps m).toOption.isSome = true ∧ LpCpp.roundTripOK m = true := by
-  decide +kernel
+  -- the two models are evaluated by the kernel in their own modules (`DimodProofs/LpFamily6.lean`, `LpFamily7.lean`)
+  have hsplit : LpCpp.familyPick 3 = LpCpp.familyOne 22 ++ LpCpp.familyOne 23 := by decide +kernel
+  intro m hm
+  rw [hsplit, List.mem_append] at hm
+  rcases hm with h | h
+  · exact LpCpp.famOK_spec m (LpCpp.family_member_22 m h)
+  · exact LpCpp.famOK_spec m (LpCpp.family_member_23 m h)
 
 /-- the picks are not vacuous: two models each -/
 example : (List.range 4).map (fun i => (LpCpp.familyPick i).length) = [2, 2, 2, 2] := by decide +kernel
